@@ -107,3 +107,19 @@ Example q_vframe_interstitial :
   let U := [[1#2; 1#4]; [1#2; 3#4]; [1#4; 1#2]] in
   colsum Qops 2 (pick [true; true; false] (vframe_all Qops 2 [true; true; false] F U)) = [0; 0].
 Proof. vm_compute. reflexivity. Qed.
+(* boundary condition edited between two solve calls: call 1 holds the left node (composition condition),
+   call 2 has closed boundaries - the node is released and the mesh sum of call 2 is constant;
+   the minimum is raised before call 2 and the result of call 2 respects the new limits *)
+Example q_calls_bc_switch :
+  let held := [mkbc Qops CompBC (1#4) FluxBC 0] in
+  let c1 := mkcall Qops held (1#100) [Euler Qops (qF [[1#100; -1#50; 1#25]]) (1#30)] in
+  let c2 := mkcall Qops qBCclosed (1#100) [Euler Qops (qF [[1#100; -1#50; 1#25]]) (1#30)] in
+  let c3 := mkcall Qops qBCclosed (1#4) [Euler Qops (qF [[1#100; -1#50; 1#25]]) (1#30)] in
+  let x1 := run_calls Qops (1#10) [c1] qX in
+  let x2 := run_calls Qops (1#10) [c1; c2] qX in
+  let x3 := run_calls Qops (1#10) [c1; c3] qX in
+  nth 0 (nth 0 x1 []) 0 = 1#4 /\ negb (Qeq_bool (nth 0 (nth 0 x2 []) 0) (1#4)) = true /\
+  sumT Qops (nth 0 x2 []) = sumT Qops (nth 0 x1 [])
+  /\ forallb (fun v => Qle_bool (1#4) v && Qle_bool v (3#4)) (nth 0 x3 []) = true
+  /\ forallb (fun v => Qle_bool (1#4) v) (nth 0 x1 []) = false.
+Proof. vm_compute. repeat split; reflexivity. Qed.
